@@ -27,7 +27,8 @@ def _work(job):
                     continue
                 idx += 1
                 lose = devices[idx % len(devices)] if (lose_every and idx % lose_every == 0) else None
-                rec, desc = crash.experiment(g, "any,*,%d,%s" % (k, kind), flags=("-E",), lose=lose, seed=seed)
+                rec, desc = crash.experiment(g, "any,*,%d,%s" % (k, kind), flags=("-E",), lose=lose, seed=seed,
+                                             restore=(idx % 3 == 1))
                 out.append(_pack(rec, g.steps + desc + ["killed at call %d/%d %s %s" % (k, n, kind, calls[k - 1])],
                                  seed * 10000 + idx, "kill-%s-%s" % (kind, pending), confkw))
         for j in range(sigint):
@@ -90,16 +91,18 @@ def run(tier):
     s0 = vlib.seed() * 100
     if quick:
         jobs = [(s0 + 1, dict(nd=2, np=2, copies=2), "mixed", ("killa", "killb", "short"), 3, 3, 3, 2),
-                (s0 + 2, dict(nd=3, np=1, copies=3), "adds", ("killa", "short"), 3, 2, 0, 1),
+                (s0 + 2, dict(nd=3, np=1, copies=3, splits=[2]), "adds", ("killa", "short"), 3, 2, 0, 1),
+                (s0 + 5, dict(nd=2, np=2, copies=2, splits=[1, 3]), "holes", ("killa",), 1, 3, 0, 0),
                 (s0 + 3, dict(nd=2, np=3, copies=1), "mixed", ("killa", "killb"), 3, 4, 4, 1),
                 (s0 + 4, dict(nd=4, np=2, copies=2), "adds", ("killa",), 1, 3, 5, 1)]
     else:
         jobs = []
-        shapes = [dict(nd=2, np=2, copies=2), dict(nd=3, np=1, copies=3), dict(nd=2, np=3, copies=1), dict(nd=4, np=2, copies=4),
-                  dict(nd=1, np=1, copies=2), dict(nd=3, np=6, copies=2)]
+        shapes = [dict(nd=2, np=2, copies=2), dict(nd=3, np=1, copies=3, splits=[2]), dict(nd=2, np=3, copies=1), dict(nd=4, np=2, copies=4),
+                  dict(nd=1, np=1, copies=2), dict(nd=3, np=6, copies=2), dict(nd=2, np=2, copies=2, splits=[1, 3]),
+                  dict(nd=3, np=2, copies=2, hash_size=8)]
         for i, sh in enumerate(shapes):
-            for pending in ("adds", "mixed"):
-                jobs.append((s0 + 10 + 2 * i + (pending == "mixed"), sh, pending, ("killa", "killb", "short"), 1, 2, 1, 4))
+            for pending in ("adds", "mixed", "holes"):
+                jobs.append((s0 + 10 + 3 * i + ("adds", "mixed", "holes").index(pending), sh, pending, ("killa", "killb", "short"), 1, 2, 1, 4))
     with multiprocessing.Pool(min(8, len(jobs))) as pool:
         res = pool.map(_work, jobs, chunksize=1)
     scs = []
